@@ -30,6 +30,14 @@ def run(ctx):
                                max_rejects=100000, timeout=3000)
     for s in vlib.first_lines(ctx.path("cases.ndjson"), 3):
         vlib.add_sample(ctx, "rule_space_case", s)
+    # distinct cases whose rule ended up listed by its manager (it was really loaded and then enforced by the nine entries)
+    loaded = set()
+    for l in open(ctx.path("cases.ndjson")):
+        c = json.loads(l)
+        rid = (c.get("rule") or {}).get("id")
+        if rid and rid in ((c.get("after") or {}).get("all") or []):
+            loaded.add(json.dumps([c.get("fam"), c.get("op"), c.get("populated"), c.get("res"), c.get("rule")], sort_keys=True))
+    ctx.notes["cases_with_rule_loaded"] = len(loaded)
     # classify: one replay file per distinct failure signature, the rest is counted
     seen = {}
     for r in rej:
@@ -68,4 +76,10 @@ def evidence(ctx):
         "a valid rule whose Custom(_) strategy has no registered generator need not become active, but must not panic",
         "NaN / infinities are the rationals with denominator 0; 'no panic' itself is an observation, the specification contributes the case space, the accepted/rejected dichotomy and what must be reported after loading",
     ]
-    vlib.write_evidence(ctx)
+    vlib.write_evidence(ctx, level="fault_enumeration", extra={
+        "evaluations": ctx.notes.get("cases", 0),
+        "distinct_nontrivial": ctx.notes.get("cases_with_rule_loaded", 0),
+        "exhaustive": False},
+        rule="cases = (family, rule of the TLA+ rule space, loading call on a fresh or populated resource), enumerated by TLC (complete for the small "
+             "families, seeded random subsets of the large ones), each followed by nine entry shapes and a health probe of every manager; distinct by "
+             "construction; non-trivial = the rule was accepted and is reported active afterwards, so the entries really ran against it")
